@@ -179,6 +179,16 @@ def header_check(r):
             bad.append("impl generics %s != %s" % (it["params"], g["impl_params"]))
         if nospace(it["self_ty"]) != want_self:
             bad.append("self type %s != %s" % (it["self_ty"], want_self))
+    # helper impls inside the generated bodies that are generic over the type's parameters (the Debug method
+    # wrapper) must repeat the parameters and the user's where-clause as well, and add nothing
+    user = [nospace(p) for p in g["where"]]
+    for it in r.get("nested", []):
+        if not it["params"]:
+            continue
+        if [nospace(p) for p in it["params"]] != want_params:
+            bad.append("helper impl for %s: generics %s != %s" % (it["self_ty"], it["params"], g["impl_params"]))
+        if [nospace(p) for p in it["where"]] != user:
+            bad.append("helper impl for %s: where-clause %s != the type's %s" % (it["self_ty"], it["where"], g["where"]))
     return bad
 
 
